@@ -45,6 +45,10 @@ pub trait SimHooks: Sync + Send {
     fn probe(&self, name: &'static str);
     /// Called instead of sending a real HTTP request.
     fn push_send(&self, request: PushRequest) -> PushFuture;
+    /// A lock of the given class (type of the protected data) at the given address was acquired.
+    fn lock_acquired(&self, _class: &'static str, _addr: usize, _exclusive: bool) {}
+    /// The lock at the given address was released.
+    fn lock_released(&self, _addr: usize) {}
 }
 
 static HOOKS: OnceLock<Box<dyn SimHooks>> = OnceLock::new();
@@ -190,5 +194,123 @@ impl PushResponse {
 impl From<PushStatus> for u16 {
     fn from(value: PushStatus) -> Self {
         value.0
+    }
+}
+
+/// Stand-ins for `parking_lot::{RwLock, Mutex}` that report the order in which locks are taken,
+/// so that the simulator can find lock-order inversions (threads that would deadlock on the
+/// multi-threaded runtime) from single-threaded runs. Same locking behaviour otherwise.
+pub struct RwLock<T>(parking_lot::RwLock<T>);
+
+pub struct RwLockReadGuard<'a, T> {
+    inner: parking_lot::RwLockReadGuard<'a, T>,
+    addr: usize,
+}
+
+pub struct RwLockWriteGuard<'a, T> {
+    inner: parking_lot::RwLockWriteGuard<'a, T>,
+    addr: usize,
+}
+
+pub struct Mutex<T>(parking_lot::Mutex<T>);
+
+pub struct MutexGuard<'a, T> {
+    inner: parking_lot::MutexGuard<'a, T>,
+    addr: usize,
+}
+
+fn lock_acquired<T>(addr: usize, exclusive: bool) {
+    if let Some(hooks) = HOOKS.get() {
+        hooks.lock_acquired(std::any::type_name::<T>(), addr, exclusive);
+    }
+}
+
+fn lock_released(addr: usize) {
+    if let Some(hooks) = HOOKS.get() {
+        hooks.lock_released(addr);
+    }
+}
+
+impl<T> RwLock<T> {
+    pub fn new(value: T) -> Self {
+        Self(parking_lot::RwLock::new(value))
+    }
+
+    pub fn read(&self) -> RwLockReadGuard<'_, T> {
+        let addr = self as *const Self as usize;
+        let inner = self.0.read();
+        lock_acquired::<T>(addr, false);
+        RwLockReadGuard { inner, addr }
+    }
+
+    pub fn write(&self) -> RwLockWriteGuard<'_, T> {
+        let addr = self as *const Self as usize;
+        let inner = self.0.write();
+        lock_acquired::<T>(addr, true);
+        RwLockWriteGuard { inner, addr }
+    }
+}
+
+impl<T> Mutex<T> {
+    pub fn new(value: T) -> Self {
+        Self(parking_lot::Mutex::new(value))
+    }
+
+    pub fn lock(&self) -> MutexGuard<'_, T> {
+        let addr = self as *const Self as usize;
+        let inner = self.0.lock();
+        lock_acquired::<T>(addr, true);
+        MutexGuard { inner, addr }
+    }
+}
+
+impl<T> std::ops::Deref for RwLockReadGuard<'_, T> {
+    type Target = T;
+    fn deref(&self) -> &T {
+        &self.inner
+    }
+}
+
+impl<T> std::ops::Deref for RwLockWriteGuard<'_, T> {
+    type Target = T;
+    fn deref(&self) -> &T {
+        &self.inner
+    }
+}
+
+impl<T> std::ops::DerefMut for RwLockWriteGuard<'_, T> {
+    fn deref_mut(&mut self) -> &mut T {
+        &mut self.inner
+    }
+}
+
+impl<T> std::ops::Deref for MutexGuard<'_, T> {
+    type Target = T;
+    fn deref(&self) -> &T {
+        &self.inner
+    }
+}
+
+impl<T> std::ops::DerefMut for MutexGuard<'_, T> {
+    fn deref_mut(&mut self) -> &mut T {
+        &mut self.inner
+    }
+}
+
+impl<T> Drop for RwLockReadGuard<'_, T> {
+    fn drop(&mut self) {
+        lock_released(self.addr);
+    }
+}
+
+impl<T> Drop for RwLockWriteGuard<'_, T> {
+    fn drop(&mut self) {
+        lock_released(self.addr);
+    }
+}
+
+impl<T> Drop for MutexGuard<'_, T> {
+    fn drop(&mut self) {
+        lock_released(self.addr);
     }
 }
